@@ -169,7 +169,8 @@ def _scenario(n, k, uids, pend, hide, exp, chg, uidcmd, use_set, g, check):
 def _harness(n, k, use_set=False):
     def fn(eng):
         from pysymex import SymUid, B, AND, Outcome
-        uids = [eng.fresh_int('u%d' % i, 1, cls=SymUid) for i in range(n + k)]
+        kk = eng.choose('new', k + 1)          # 0..k messages arrive in the same update
+        uids = [eng.fresh_int('u%d' % i, 1, cls=SymUid) for i in range(n + kk)]
         for a, b in zip(uids, uids[1:]):
             eng.add(a.t < b.t)
         pend = [eng.flip('pend%d' % i) for i in range(n)]
@@ -178,10 +179,10 @@ def _harness(n, k, use_set=False):
         chg = [(not pend[i]) and (not exp[i]) and eng.flip('chg%d' % i) for i in range(n)]
         uidcmd = eng.flip('uidcmd')
         obligations = []
-        wit = lambda m: {'n': n, 'k': k, 'uids': [u.eval(m) for u in uids],  # noqa: E731
+        wit = lambda m: {'n': n, 'k': kk, 'uids': [u.eval(m) for u in uids],  # noqa: E731
                          'pend': pend, 'hide': hide, 'exp': exp, 'chg': chg,
                          'uidcmd': uidcmd, 'use_set': use_set}
-        err = _scenario(n, k, uids, pend, hide, exp, chg, uidcmd, use_set, _g,
+        err = _scenario(n, kk, uids, pend, hide, exp, chg, uidcmd, use_set, _g,
                         lambda c: obligations.append(B(c)))
         if err is not None:
             return Outcome(False, witness=wit, info=err)
